@@ -53,8 +53,31 @@ func engineSelect(l *harness.Live) ([]int, *harness.Failure) {
 	if f != nil {
 		return nil, f
 	}
-	return selectWith(e, l)
+	ids, f := selectWith(e, l)
+	if f != nil || !reuseSampled(l) {
+		return ids, f
+	}
+	// One case in three: the same compiled expression once more, same document, same
+	// context. Whatever a property says about Select it says about every call, so a
+	// second call that differs breaks it in this property's own fragment (C04 is the
+	// check that explores histories; this is one fixed history everywhere).
+	ids2, f2 := selectWith(e, l)
+	if f2 != nil {
+		if f2 == cappedFailure {
+			return ids, nil
+		}
+		f2.Note = "second Select on the same compiled expression: " + f2.Note
+		return ids, f2
+	}
+	if !harness.EqualInts(ids, ids2) {
+		return ids, harness.Failf(describe(l.Doc, ids), describe(l.Doc, ids2), "the second Select on the same compiled expression (same document, same context) yields a different sequence")
+	}
+	return ids, nil
 }
+
+// reuseSampled picks, as a function of the expression text only, the cases in which
+// the compiled expression is evaluated a second time.
+func reuseSampled(l *harness.Live) bool { return harness.Hash64(l.Expr)%3 == 0 }
 
 func selectWith(e *xpath.Expr, l *harness.Live) ([]int, *harness.Failure) {
 	ids, capped, pan := harness.Select(e, l.Doc, l.Flavour, l.Ctx, &xdoc.Budget{Limit: engineBudget})
@@ -76,7 +99,22 @@ func engineEval(l *harness.Live) (harness.Value, *harness.Failure) {
 	if f != nil {
 		return harness.Value{}, f
 	}
-	return evalWith(e, l)
+	v, f := evalWith(e, l)
+	if f != nil || !reuseSampled(l) {
+		return v, f
+	}
+	v2, f2 := evalWith(e, l)
+	if f2 != nil {
+		if f2 == cappedFailure {
+			return v, nil
+		}
+		f2.Note = "second Evaluate on the same compiled expression: " + f2.Note
+		return v, f2
+	}
+	if !v.Equal(v2) {
+		return v, harness.Failf(v.String(), v2.String(), "the second Evaluate on the same compiled expression (same document, same context) gives a different value")
+	}
+	return v, nil
 }
 
 func evalWith(e *xpath.Expr, l *harness.Live) (harness.Value, *harness.Failure) {
